@@ -16,6 +16,8 @@ func init() {
 				{Harness: "c03.bytes", Mode: "plain", Shards: 16},
 				{Harness: "c03.utf8", Mode: "plain", Shards: 16},
 				{Harness: "c03.sizes", Mode: "shim", Shards: 16},
+				{Harness: "c03.ctrl", Mode: "plain", Shards: 8},
+				{Harness: "c03.passthrough", Mode: "plain", Shards: 8},
 			}
 		},
 	})
